@@ -331,6 +331,10 @@ class Builtins:
                 if len(pos) == 2 or cs[2] == 1:
                     yield ("val", SList(z3.If(b - a < 0, 0, b - a), z3.Lambda([k], a + k), lambda t: t), st); return
                 yield ("val", SList(z3.If(a - b < 0, 0, a - b), z3.Lambda([k], a - k), lambda t: t), st); return
+            if len(pos) == 3 and all(self.E.is_int(p) for p in pos[:2]) and isinstance(cs[2], int) and not isinstance(cs[2], bool) and cs[2] >= 2:
+                # range(a, b, c) with a constant step c >= 2: a, a+c, ...; ceil((b-a)/c) elements
+                a, b = S(pos[0]), S(pos[1]); c = cs[2]; k = z3.Int("k!rg")
+                yield ("val", SList(z3.If(b - a <= 0, 0, (b - a + (c - 1)) / c), z3.Lambda([k], a + c * k), lambda t: t), st); return
             raise Unsupported("symbolic range")
         yield ("val", list(range(*cs)), st)
 
